@@ -1,11 +1,11 @@
-\* design-level check: PPModel with every deviation off refines the declarative Expand on space "t0"
+\* design-level: peek()'s one-token push-back is transparent (consumer may push back up to 2 tokens anywhere)
 SPECIFICATION Spec
 CONSTANTS
   Devs <- NoDevs
   Space = "t0"
-  Modes = {"E", "C"}
+  Modes = {"C"}
   EmitCases = FALSE
-  PeekBudget = 0
+  PeekBudget = 2
 INVARIANTS Inv_Ctx Inv_End Inv_Conform
 PROPERTIES Prop_Disc
 CHECK_DEADLOCK FALSE
